@@ -14,6 +14,7 @@ Step(op) == LET t == Eff(op, s) IN
 Next == s.st = "run" /\ Len(prog) < MaxLen /\ \E op \in Alphabet : Step(op)
 Spec == Init /\ [][Next]_vars
 Clean == s.st = "stop" /\ Len(s.stack) = 0
-DesignInjOK == Clean => \A mode \in CheckModes : InjOK(prog, Rewrite(prog, mode), mode)
+DesignInjOK == Clean => /\ \A mode \in CheckModes : InjOK(prog, Rewrite(prog, mode), mode)
+                        /\ \A mode \in FnModeSet : FnWhyOf(prog, RewriteFn(prog, mode, SymK), mode) = "ok"
 Emit == Clean => PrintT(<<"BASE", ToJson(prog)>>)
 =============================================================================
